@@ -141,6 +141,22 @@ mod c11 {
         kani::cover!(shard >= n);
     }
 
+    /// C11.port_range_new — the constructor is what establishes `valid_range`, the precondition of the port contracts:
+    /// Ok <=> non-empty and starting at >= 1024; the range is stored unchanged. Every (start, end).
+    #[kani::proof]
+    fn c11_port_range_new() {
+        let (start, end): (u16, u16) = (kani::any(), kani::any());
+        match ShardAwarePortRange::new(start..=end) {
+            Ok(r) => {
+                assert!(start <= end && start >= 1024, "accepted ranges are non-empty and avoid the reserved ports");
+                assert!(*r.0.start() == start && *r.0.end() == end, "stored unchanged");
+                assert!(valid_range(&r));
+            }
+            Err(_) => assert!(start > end || start < 1024, "refused only when empty or starting in the reserved ports"),
+        }
+        assert!(valid_range(&ShardAwarePortRange::EPHEMERAL_PORT_RANGE) && valid_range(&ShardAwarePortRange::default()));
+    }
+
     /// counterexample search for the in-place contract of calculate_lowest_port_for_shard_in_range (proved unbounded by
     /// the Verus unit; CBMC cannot prove it in reasonable time but finds violations of it quickly)
     #[kani::proof_for_contract(Sharder::calculate_lowest_port_for_shard_in_range)]
